@@ -55,6 +55,7 @@ RECORDS: list[tuple[str, str, dict[str, Any], list[str]]] = [
 ]
 FLAG_NAMES = {'is_vitamin': 'is_vitamin', 'self.is_vitamin': 'is_vitamin', 'has_ambient': 'has_ambient'}
 PASSTHROUGH = {'int', 'float', 'round', 'bool', 'abs', 'coord', 'bytes', 'list', 'tuple'}
+STR_METHODS = {'casefold', 'lower', 'upper', 'strip', 'rstrip', 'lstrip', 'title', 'capitalize', 'swapcase'}
 XYZ = 'xyz'
 COMPONENTS = {'Vec': ['x', 'y', 'z'], 'Angle': ['pitch', 'yaw', 'roll']}     # positional constructor arguments of srctools.math
 CONST = '<constant>'
@@ -426,6 +427,9 @@ class Writer:
                     return set().union(*[self.W(a, role or ':ref', seen) for a in e.args]) if e.args else set()
             if isinstance(e.func, ast.Attribute) and e.func.attr in ('pack',) or f == 'struct.pack':
                 return set()
+            if isinstance(e.func, ast.Attribute) and e.func.attr in STR_METHODS and not e.args and not e.keywords:
+                # name.casefold() and the like: still (a function of) that attribute
+                return self.W(e.func.value, role, seen)
             raise TranslateError(f'{self.fn.name}: line {e.lineno}: call not recognised in a packed value: {ast.unparse(e)[:60]}')
         if isinstance(e, ast.Subscript):
             if isinstance(e.value, ast.Name) and e.value.id not in self.recvars:
